@@ -11,6 +11,7 @@ import (
 
 	"connectrpc.com/connect"
 	"google.golang.org/genproto/googleapis/api/annotations"
+	"google.golang.org/protobuf/encoding/protojson"
 	"google.golang.org/protobuf/proto"
 	"google.golang.org/protobuf/reflect/protoreflect"
 	"google.golang.org/protobuf/reflect/protoregistry"
@@ -524,4 +525,27 @@ func newFakeTranscoder(svc *fakeService, handler http.Handler, cfg *fakeConfig, 
 // fake method descriptors carry no google.api.http annotation.
 func verifModel_connectrpc_com_vanguard_getHTTPRuleExtension(desc protoreflect.MethodDescriptor) (*annotations.HttpRule, bool) {
 	return nil, false
+}
+
+// Reflection-driven protobuf libraries have no encodable core: reaching them ends the path as a
+// recorded cut (never a pass, never a violation).
+func verifModel_google_golang_org_protobuf_encoding_protojson_UnmarshalOptions_Unmarshal(o protojson.UnmarshalOptions, b []byte, m proto.Message) error {
+	verifOutside("protojson.Unmarshal (protobuf reflection) is outside the encoding")
+	return nil
+}
+func verifModel_google_golang_org_protobuf_encoding_protojson_MarshalOptions_MarshalAppend(o protojson.MarshalOptions, b []byte, m proto.Message) ([]byte, error) {
+	verifOutside("protojson.Marshal (protobuf reflection) is outside the encoding")
+	return nil, nil
+}
+func verifModel_google_golang_org_protobuf_encoding_protojson_MarshalOptions_Marshal(o protojson.MarshalOptions, m proto.Message) ([]byte, error) {
+	verifOutside("protojson.Marshal (protobuf reflection) is outside the encoding")
+	return nil, nil
+}
+func verifModel_google_golang_org_protobuf_proto_Marshal(m proto.Message) ([]byte, error) {
+	verifOutside("proto.Marshal (protobuf reflection) is outside the encoding")
+	return nil, nil
+}
+func verifModel_google_golang_org_protobuf_proto_Unmarshal(b []byte, m proto.Message) error {
+	verifOutside("proto.Unmarshal (protobuf reflection) is outside the encoding")
+	return nil
 }
